@@ -4,6 +4,7 @@ import (
 	"fmt"
 	"go/ast"
 	"go/parser"
+	"go/printer"
 	"go/token"
 	"path/filepath"
 	"strconv"
@@ -115,6 +116,102 @@ func byteLit(e ast.Expr) ([]byte, string, error) {
 	return nil, "", fmt.Errorf("prefix argument is neither []byte{...} nor []byte(\"...\")")
 }
 
+// listLoopSite reads the ListType case of DecodeValue: the variable assigned from
+// source.NextUint32() (the wire count) and the condition of the element loop. ok=true when the
+// loop is `for i := ...; i < <that variable>; i++` and that variable is assigned only once.
+func listLoopSite(repo string) (ok bool, desc string, err error) {
+	fset := token.NewFileSet()
+	f, perr := parser.ParseFile(fset, filepath.Join(repo, "vm/crossvm_codec/codec.go"), nil, 0)
+	if perr != nil {
+		return false, "", perr
+	}
+	var fd *ast.FuncDecl
+	for _, d := range f.Decls {
+		if x, k := d.(*ast.FuncDecl); k && x.Name.Name == "DecodeValue" && x.Recv == nil {
+			fd = x
+		}
+	}
+	if fd == nil || fd.Body == nil {
+		return false, "", fmt.Errorf("DecodeValue not found")
+	}
+	var clause *ast.CaseClause
+	ast.Inspect(fd.Body, func(n ast.Node) bool {
+		if cl, k := n.(*ast.CaseClause); k {
+			for _, e := range cl.List {
+				if id, k := e.(*ast.Ident); k && id.Name == "ListType" {
+					clause = cl
+				}
+			}
+		}
+		return true
+	})
+	if clause == nil {
+		return false, "", fmt.Errorf("case ListType not found in DecodeValue")
+	}
+	count := ""
+	assigns := map[string]int{} // assignments per variable in the clause (outside the loop header)
+	var loops []*ast.ForStmt
+	for _, st := range clause.Body {
+		ast.Inspect(st, func(n ast.Node) bool {
+			switch x := n.(type) {
+			case *ast.AssignStmt:
+				for _, l := range x.Lhs {
+					if id, k := l.(*ast.Ident); k {
+						assigns[id.Name]++
+					}
+				}
+				if len(x.Rhs) == 1 && len(x.Lhs) >= 1 {
+					if ce, k := x.Rhs[0].(*ast.CallExpr); k {
+						if sel, k := ce.Fun.(*ast.SelectorExpr); k && sel.Sel.Name == "NextUint32" {
+							if id, k := x.Lhs[0].(*ast.Ident); k {
+								count = id.Name
+							}
+						}
+					}
+				}
+			case *ast.ForStmt:
+				loops = append(loops, x)
+			}
+			return true
+		})
+	}
+	if count == "" || len(loops) != 1 {
+		return false, "", fmt.Errorf("case ListType: expected one NextUint32 assignment and one for loop, found count=%q loops=%d", count, len(loops))
+	}
+	lp := loops[0]
+	var cb strings.Builder
+	if lp.Cond != nil {
+		cb.WriteString(exprString(fset, lp.Cond))
+	}
+	desc = fmt.Sprintf("wire count variable %s; loop condition %s", count, cb.String())
+	be, k := lp.Cond.(*ast.BinaryExpr)
+	if !k || be.Op != token.LSS {
+		return false, desc, nil
+	}
+	iv, k1 := be.X.(*ast.Ident)
+	bound, k2 := be.Y.(*ast.Ident)
+	if !k1 || !k2 || bound.Name != count {
+		return false, desc, nil
+	}
+	if assigns[count] != 1 { // the count is changed between the read and the loop
+		return false, desc + fmt.Sprintf("; %s is assigned %d times", count, assigns[count]), nil
+	}
+	inc, k := lp.Post.(*ast.IncDecStmt)
+	if !k || inc.Tok != token.INC {
+		return false, desc, nil
+	}
+	if id, k := inc.X.(*ast.Ident); !k || id.Name != iv.Name {
+		return false, desc, nil
+	}
+	return true, desc, nil
+}
+
+func exprString(fset *token.FileSet, e ast.Expr) string {
+	var b strings.Builder
+	printer.Fprint(&b, fset, e)
+	return b.String()
+}
+
 func coqNList(b []byte) string {
 	var s []string
 	for _, x := range b {
@@ -133,8 +230,16 @@ func init() {
 			n("AddressType", crossvm_codec.AddressType), n("BooleanType", crossvm_codec.BooleanType),
 			n("IntType", crossvm_codec.IntType), n("H256Type", crossvm_codec.H256Type),
 			n("ListType", crossvm_codec.ListType), n("VERSION", crossvm_codec.VERSION),
+			{Name: "MAX_PARAM_LENGTH", Type: "N", Value: fmt.Sprintf("%d%%N", crossvm_codec.MAX_PARAM_LENGTH), Comment: "crossvm_codec.MAX_PARAM_LENGTH"},
 		}
 		var errs []string
+		if ok, desc, err := listLoopSite(repo); err != nil {
+			errs = append(errs, "LIST_LOOP: "+err.Error())
+			cs = append(cs, gen.Const{Name: "translator_broken_LIST_LOOP", Type: "unit", Value: "tt", Comment: err.Error()})
+		} else {
+			cs = append(cs, gen.Const{Name: "LIST_LOOP_USES_WIRE_COUNT", Type: "bool", Value: fmt.Sprint(ok),
+				Comment: "vm/crossvm_codec/codec.go DecodeValue case ListType: " + desc + " (true iff the loop is `for i := ..; i < <wire count>; i++`)"})
+		}
 		site := func(pfx, file, fn string) {
 			p, psrc, k, ksrc, err := prefixSite(repo, file, fn)
 			if err != nil {
